@@ -2,7 +2,8 @@
 worker (and every replay) can rebuild a fresh, identical graph: a script is a list of node
 specs in creation order, children refer to earlier nodes by index; the root is the last node.
 
-leaf specs:   ('none',) ('int', n) ('str', s) ('dstr', s) ('bool', b)
+leaf specs:   ('none',) ('int', n) ('str', s) ('dstr', s) ('bool', b) ('nan',)
+              'nan' = a float NaN object (unequal to itself under ==; containers compare it by identity first)
               'dstr' = an equal-but-distinct string object built at run time for every node
 containers:   ('list', i...) ('tuple', i...) ('dict', (key, i)...)
 objects:      ('K0',) ('K1', i) ('K2', i, j) ('Infix', i, j, k) ('Prefix', i, j) ('Postfix', i, j)
@@ -88,7 +89,7 @@ def scripts(max_nodes, kinds, leaves=LEAVES, root_kinds=None):
 
     roots = [s for s in shp if root_kinds is None or s[0] in root_kinds]
     for ns, idx in build(max_nodes, [], roots):
-        if ns[idx][0] in ('none', 'int', 'str', 'dstr', 'bool', 'bytes'):
+        if ns[idx][0] in ('none', 'int', 'str', 'dstr', 'bool', 'bytes', 'nan'):
             continue
         yield tuple(ns)
 
@@ -108,6 +109,8 @@ def construct(script, g):
             v = spec[1]
         elif k == 'bytes':
             v = bytes(bytearray(spec[1]))       # a bytes leaf (a sequence, but not a container of the tree)
+        elif k == 'nan':
+            v = float('nan')
         elif k == 'dstr':
             v = ''.join(list(spec[1]))          # a fresh, equal string object
         elif k == 'list':
@@ -150,7 +153,7 @@ def ref_eq(g, a, b):
         return isinstance(b, dict) and a.keys() == b.keys() and all(ref_eq(g, a[k], b[k]) for k in a)
     if isinstance(b, (list, tuple, dict)):
         return False
-    return a == b
+    return a is b or a == b          # like the built-in containers: identity first (a NaN leaf equals itself)
 
 
 def snapshot(g, x, meta=True):
@@ -168,4 +171,6 @@ def snapshot(g, x, meta=True):
         return ('O', type(x).__name__, m, tuple((f, snapshot(g, getattr(x, f), meta)) for f in x._fields))
     if isinstance(x, bool):
         return ('B', x)
+    if isinstance(x, float) and x != x:
+        return ('NAN',)              # snapshots of two builds of one script must compare equal
     return x
